@@ -2,8 +2,8 @@
 import gens
 
 ID = "C03"
-LEAN_MODULES = ["LexVerif.Props.C03"]
-GEN = []
+LEAN_MODULES = ["LexVerif.Props.C03", "LexVerif.Props.TablesWrite"]
+GEN = ["write_tables"]
 TRUSTED = [
     "Lean 4.33.0 kernel; axioms of each theorem listed under coverage.theorems",
     "correspondence harness (harness/src/bin/run.rs) and generators (gens.py): differential testing, bounded by generator quality",
@@ -16,6 +16,13 @@ RULE = ("G-int-write generator: per (type, radix): every u8/i8 value (all radice
         "r^k-1, r^k, r^k+1 for every k, 2^k-1, 2^k, 10^k-1, 10^k (jeaiii branch thresholds), values around r^(j*u64_step(r)) "
         "for the 128-bit chunking, min/max, random values of every bit length; short buffers for the panic paths; "
         "non-trivial = result ok with at least one digit; distinct = distinct op lines")
+
+TECHNIQUE = "Lean 4 proof: model of compact.rs and the generic-radix algorithm.rs/digit_count.rs = canonical numeral, for every value; numeral theory (ofDigits/toDigits); digit-pair/step/div128 tables kernel-checked; decimal jeaiii paths by correspondence (exhaustive for 8/16-bit)"
+LEVEL_TEXT = ("Proved in Lean for every value: the canonical-numeral theory (ofDigits∘toDigits = id, digit bounds, no leading zero, length, uniqueness); the compact writer for all 12 types and radices; "
+              "the non-decimal radix path (digit_count exact, 4-2-1 digit-pair loop = toDigits, no FAULT) for all 64-bit-or-smaller types and 128-bit values below 2^64; all 35 digit-pair tables, u64_step, "
+              "div128 constants and the fast_digit_count table regenerated from the crate equal their closed forms. NOT proved: the decimal jeaiii writers and u128_divrem above 2^64 (full statement kept as a Prop); "
+              "these are covered by the correspondence run (all u8/i8/u16/i16 values exhaustively, boundary values of every branch, Display equality). Partial proof, stated as such.")
+LEVEL_NOTE = "Trusted: Lean kernel; that Model.WriteInt mirrors the Rust (correspondence, ~2M ops); release-mode semantics (debug assertions not modelled); rustc."
 
 
 def feature_sets(tier):
